@@ -79,8 +79,17 @@ def record(exe, argv, cmds, open_event, with_state=True, timeout=15, views=False
     if views:
         v = parse_view(R.banner, True)
         if v: evs.append(v)
-    for c in cmds:
+    i = 0
+    while i < len(cmds):
+        c = cmds[i]; i += 1
         out, err = R.cmd(c)
+        # empty lines repeat the previous line: after `exec ops` each one applies ops once more (recorded as one exec of the repeated list,
+        # which is the same function of the state as long as no operation fails); the lines are sent before anything else is typed
+        reps = 0
+        while c.startswith("exec ") and i < len(cmds) and cmds[i] == "" and R.alive() and "<<NO PROMPT>>" not in out:
+            i += 1; reps += 1
+            out, e2 = R.cmd("")
+            err += e2
         if "<<NO PROMPT>>" in out or not R.alive():
             evs.append({"e": "Crashed", "sig": -1, "cmd": c, "out": out[-200:], "err": err[-200:]})
             break
@@ -93,7 +102,7 @@ def record(exe, argv, cmds, open_event, with_state=True, timeout=15, views=False
         elif name == "rewind":
             e = dict(DUMMY); e.update(state()); e.update({"e": "Rewind", "ok": "error" not in err.lower()})
         elif name == "exec":
-            e = dict(DUMMY); e.update(state()); e.update({"e": "Exec", "ok": "rror" not in err, "toks": c.split()[1:]})
+            e = dict(DUMMY); e.update(state()); e.update({"e": "Exec", "ok": "rror" not in err, "toks": c.split()[1:] * (reps + 1)})
         else:
             continue
         evs.append(e)
